@@ -973,7 +973,7 @@ func (r *Run) exchange(g *kit.Gor, ci, oi int, name string, op *Op) {
 		case "close":
 			resp.Body.Close()
 		case "partial":
-			buf := make([]byte, 16)
+			buf := make([]byte, 48)
 			n, _ := io.ReadFull(resp.Body, buf)
 			e.Body = buf[:n]
 			resp.Body.Close()
